@@ -278,21 +278,33 @@ def oracle_traj(case):
     interp = case.get("interp") or {}
     rows, mb = [], 0
 
-    def field(sig, k):
-        fl = flat
-        if ext:
-            fl = json.loads(json.dumps(flat))
+    # discretely delayed edges (C09): during step k they deliver weight * (source value at step k - D), D = round(delay/dt), 0 before the start
+    delayed = [e for e in flat["edges"] if e.get("delay") is not None]
+    plain = dict(flat, edges=[e for e in flat["edges"] if e.get("delay") is None])
+    hist = []     # value tables of the previous steps, oldest first
+
+    def field(sig, k, record=False):
+        fl = plain if delayed else flat
+        if ext or delayed:
+            fl = json.loads(json.dumps(fl))
             # an extrinsic input is one more source of the input variable
             for i, x in enumerate(ext):
                 n, o, v = x["tgt"].rsplit("/", 2)
                 fl["nodes"].append({"path": f"__ext{i}", "ops": [{"name": "e", "output": "u", "vars": [{"name": "u", "decl": "other", "value": str(F(x["samples"][k]) if k < len(x["samples"]) else 0)}], "eqs": []}]})
                 fl["edges"].append({"src": [f"__ext{i}", "e", "u"], "tgt": [n, o, v], "w": "1"})
+            for i, e in enumerate(delayed):
+                D = round(F(e["delay"]) / dt)
+                val = F(e["w"]) * hist[k - D]["/".join(e["src"])] if k - D >= 0 else F(0)
+                fl["nodes"].append({"path": f"__del{i}", "ops": [{"name": "e", "output": "u", "vars": [{"name": "u", "decl": "other", "value": str(val)}], "eqs": []}]})
+                fl["edges"].append({"src": [f"__del{i}", "e", "u"], "tgt": e["tgt"], "w": "1"})
         vals, dy = M.oracle_eval(fl, sig, interp)
+        if record:
+            hist.append(vals)
         return dy
     try:
         for k in range(steps):
             rows.append({p: C.q2s(v) for p, v in sigma.items()})
-            k1 = field(sigma, k)
+            k1 = field(sigma, k, record=True)
             if rc.get("solver", "euler") == "euler":
                 sigma = {p: sigma[p] + dt * k1[p] for p in sp}
             else:
@@ -316,5 +328,8 @@ def model_traj_request(case, flat):
     for x in case.get("ext_inputs") or []:
         n, o, v = x["tgt"].rsplit("/", 2)
         inputs.append({"tgt": [n, o, v], "samples": x["samples"]})
+    dt = F(rc["dt"])
+    delayed = [{"src": e["src"], "tgt": e["tgt"], "w": e["w"], "steps": round(F(e["delay"]) / dt)} for e in flat["edges"] if e.get("delay") is not None]
+    fl = dict(flat, edges=[e for e in flat["edges"] if e.get("delay") is None])
     return dict(comp="nettraj", fuel=60, dt=rc["dt"], steps=round(F(rc["T"]) / F(rc["dt"])), heun=rc.get("solver", "euler") == "heun",
-                init=init, interp=case.get("interp") or {}, inputs=inputs, **flat)
+                init=init, interp=case.get("interp") or {}, inputs=inputs, delayed=delayed, **fl)
